@@ -36,6 +36,7 @@ func Harness_Unreverse() {
 	vhReach("done")
 	vhAssert(len(g.Edges) == m, "edge-count")
 	for i, e := range g.Edges {
+		vhObserveBool("reversed", e.IsReversed)
 		vhAssert(!e.IsReversed, "no-edge-left-reversed")
 		vhAssert(e.From == from[i] && e.To == to[i], "input-direction-restored")
 		for _, nd := range nodes {
